@@ -18,7 +18,7 @@ PARTS = {
     "C21": ["alu"],
     "C24": ["mem", "prog", "fuzz", "calls"],
     "C25": ["flow", "prog"],
-    "C26": ["prog", "gas", "calls"],
+    "C26": ["prog", "gas", "calls", "assets"],
     "C34": ["calls"],
     "C27": ["assets", "calls"],
     "C28": ["assets", "prog", "client"],
